@@ -87,10 +87,11 @@ type Contracts struct {
 	Files    []string
 	Always   []string // axioms always included
 	ReadOnly map[string]bool
+	constID  map[string]string // fnconst/typeconst name -> numeral, filled in by the engine
 }
 
 func newContracts() *Contracts {
-	return &Contracts{DeclBy: map[string]*Decl{}, ByName: map[string]*Contract{}, ReadOnly: map[string]bool{}}
+	return &Contracts{DeclBy: map[string]*Decl{}, ByName: map[string]*Contract{}, ReadOnly: map[string]bool{}, constID: map[string]string{}}
 }
 
 // loadGoContractFile extracts /*@ ... */ blocks from a comment-only Go file.
@@ -193,6 +194,11 @@ func (c *Contracts) loadForm(file string, f *SX) error {
 			c.ReadOnly[a.Atom] = true
 		}
 		return nil
+	case "fnconst":
+		// (fnconst name "pkg.Func"): a named constant holding the identity of a Go function
+		return c.addDecl(&Decl{Kind: "fnconst", Name: f.List[1].Atom, SX: f, File: file, Line: f.Line})
+	case "typeconst":
+		return c.addDecl(&Decl{Kind: "typeconst", Name: f.List[1].Atom, SX: f, File: file, Line: f.Line})
 	case "sort", "uf", "const":
 		return c.addDecl(&Decl{Kind: h, Name: f.List[1].Atom, SX: f, File: file, Line: f.Line})
 	case "spec", "specrec":
